@@ -283,6 +283,15 @@ class HelperInliner(object):
                             self.inlined.append(name)
                             continue
                     elif r is not None:
+                        # `t = helper()` whose result is the helper's own local: that local *is* t (no trailing copy), unless t
+                        # already occurs in what was expanded (an argument)
+                        if isinstance(st, ast.Assign) and st.value is c and len(st.targets) == 1 and isinstance(st.targets[0], ast.Name) and \
+                                isinstance(r, ast.Name) and '__h' in r.id and pre and \
+                                not any(isinstance(x, ast.Name) and x.id == st.targets[0].id for q in pre for x in ast.walk(q)):
+                            ren = _Subst({r.id: st.targets[0].id})
+                            out.extend(ren.visit(q) for q in pre)
+                            self.inlined.append(name)
+                            continue
                         out.extend(pre)
                         out.append(self._replace(st, c, r))
                         self.inlined.append(name)
